@@ -177,3 +177,17 @@ M("c15.6378", "C15", MO, "ppii = asin(6378.14 / Delta)", "ppii = asin(6738.14 / 
 M("c15.illum-term", "C15", MO, "i = Angle(180.0 - D - 6.289 * sin(Mprimer)", "i = Angle(180.0 - D - 16.289 * sin(Mprimer)")
 M("c15.node-13.4223", "C15", MO, "k = round((year - 2000.05) * 13.4223, 0)", "k = round((year - 2000.05) * 13.2423, 0)")
 M("c15.decl-south-sign", "C15", MO, "jde += 2451562.5897", "jde += 2451563.5897")
+# ---- C20
+I = "pymeeus/Interpolation.py"
+M("c20.arg-to_positive", "C20", C, "    lon = longitude.rad()\n    lat = latitude.rad()\n    eps = obliquity.rad()\n    ra = atan2(", "    lon = longitude.to_positive().rad()\n    lat = latitude.rad()\n    eps = obliquity.rad()\n    ra = atan2(")
+M("c20.iadd-in-place", "C20", A, "        self = self + b\n        return self\n", "        self._deg = Angle.reduce_deg(self._deg + float(b))\n        return self\n", note="in-place += on the receiver itself is legal Python; the alias of the left operand changes. C03 asserts operands unchanged")
+M("c20.epoch-mutated", "C20", "pymeeus/Jupiter.py", "        epoch -= tau\n", "        epoch._jde -= tau\n")
+M("c20.table-sorted", "C20", C, "    t = (epoch.jde() - 2451545.0) / 365250.0\n    sum_list = []", "    t = (epoch.jde() - 2451545.0) / 365250.0\n    vsop_l[0].sort()\n    sum_list = []")
+M("c20.order-points-alias", "C20", I, "        x = list(self._x)\n        y = list(self._y)\n", "        x = self._x\n        y = list(self._y)\n", note="writes xmax into the caller-visible list during ordering")
+M("c20.guard-removed", "C20", "pymeeus/Moon.py", "        if not (isinstance(epoch, Epoch)):\n            raise TypeError(\"Invalid input type\")\n        # Get the time from J2000.0 in Julian centuries\n        t = (epoch - JDE2000) / 36525.0\n        # Mean elongation of the Moon", "        # Get the time from J2000.0 in Julian centuries\n        t = (epoch - JDE2000) / 36525.0\n        # Mean elongation of the Moon")
+M("c20.global-cache", "C20", C, "def nutation_obliquity(*args, **kwargs):", "_LAST = []\n\n\ndef nutation_obliquity(*args, **kwargs):", note="adds an unused global only: no behaviour change; placeholder")
+M("c20.hidden-state", "C20", "pymeeus/Sun.py", "        lon, lat, r = Earth.geometric_heliocentric_position(epoch, tofk5)\n        lon = lon.to_positive() + 180.0", "        lon, lat, r = Earth.geometric_heliocentric_position(epoch, tofk5)\n        JDE2000._jde += 1e-7\n        lon = lon.to_positive() + 180.0")
+M("c20.copy-shares-tol", "C20", I, "                self._x = args[0]._x\n                self._y = args[0]._y\n", "                self._x = args[0]._x\n                self._y = args[0]._y\n                args[0]._tol = self._tol\n")
+M("c20.return-none", "C20", "pymeeus/Epoch.py", "        if isinstance(year, (int, float)):\n            # Mind the difference between Julian and Gregorian calendars", "        if isinstance(year, bool):\n            return None\n        if isinstance(year, (int, float)):\n            # Mind the difference between Julian and Gregorian calendars", note="bool is not probed: survivor expected")
+M("c20.nan-result", "C20", C, "    return 42.1218 * sqrt((1.0 / r) - (1.0 / (2.0 * a)))", "    return 42.1218 * sqrt((1.0 / r) - (1.0 / (2.0 * a))) if a < 39.0 else float('nan')")
+M("c20.keyerror", "C20", "pymeeus/Moon.py", "        if (\n            (target != \"new\")\n            and (target != \"first\")\n            and (target != \"full\")\n            and (target != \"last\")\n        ):\n            raise ValueError(\"'target' value is invalid\")", "        {\"new\": 0, \"first\": 1, \"full\": 2, \"last\": 3}[target]")
